@@ -19,3 +19,6 @@ open GoSQLXModel
 #print axioms Lex.unterminated_literal_located
 #print axioms Props.C05.unterminated_literal_located_at_its_quote
 #print axioms Props.C05.token_limit_error_located_at_the_excess
+#print axioms Props.C05.loc_start
+#print axioms Props.C05.loc_strict
+#print axioms Props.C05.loc_injective
